@@ -95,16 +95,19 @@ inline std::string diffMessage(const Driven &d, const c15ref::Result &ref, std::
 // Smallest prefix length at which the loop has been handed >= need bytes under this segmentation.
 inline size_t boundaryAtOrAfter(size_t need, size_t total, const std::vector<size_t> &cuts, size_t uniform)
 {
-  if (uniform)
+  // same read model as c15::drive(): next cut / uniform size, never more than the 8192-byte buffer
+  size_t off = 0, ci = 0;
+  while (off < total)
   {
-    size_t k = (need + uniform - 1) / uniform * uniform;
-    if (k == 0)
-      k = uniform;
-    return std::min(k, total);
+    size_t segEnd = uniform ? std::min(total, off + uniform) : (ci < cuts.size() ? cuts[ci] : total);
+    if (segEnd - off > 8192)
+      segEnd = off + 8192;
+    off = segEnd;
+    if (!uniform && ci < cuts.size() && cuts[ci] == off)
+      ++ci;
+    if (off >= need)
+      return off;
   }
-  for (size_t c : cuts)
-    if (c >= need)
-      return c;
   return total;
 }
 
